@@ -36,7 +36,8 @@ def stress_api(variant):
     main['messages'].append(dict(name='Zine', fields=[dict(name='name')], resource=dict(type='lib.example.com/Zine', patterns=['zines/{zine}'])))
     main['messages'].append(dict(name='Atlas', fields=[dict(name='name')], resource=dict(type='lib.example.com/Atlas', patterns=['atlases/{atlas}', 'shelves/{shelf}/atlases/{atlas}'])))
     book = [m for m in main['messages'] if m['name'] == 'Book'][0]
-    book['fields'] += [dict(name='tome', type='Tome'), dict(name='zine', type='Zine'), dict(name='atlas', type='Atlas')]
+    book['fields'] += [dict(name='tome', type='Tome'), dict(name='zine', type='Zine'), dict(name='atlas', type='Atlas'),
+                       dict(name='trace_id', uuid4=True)]        # a UUID4-format field in a RESPONSE (its mock value is printed into the emitted tests)
     codes = ['UNAVAILABLE', 'DEADLINE_EXCEEDED', 'ABORTED', 'INTERNAL', 'RESOURCE_EXHAUSTED', 'UNKNOWN']
     api['retry'] = {'methodConfig': [
         {'name': [{'service': 'acme.lib.v1.Library'}], 'timeout': '30s',
